@@ -7,3 +7,7 @@ def U(*a, **k): UNITS.append(Unit(*a, **k))
 for d in (1, 2, 3):
     U('C01', 'C01_step.cpp', defines=dict(DIM=d, NB=3, SB=6), unwind=6, timeout=900)
 U('C01', 'C01_step.cpp', defines=dict(DIM=4, NB=3, SB=4, FB=1), unwind=6, timeout=3000, tier='thorough')
+
+# ---- C02 iterators, flat element ranges
+for d in (1, 2, 3):
+    U('C02', 'C02_iter.cpp', defines=dict(DIM=d, NB=3, SB=6), unwind=6, timeout=900)
